@@ -75,6 +75,72 @@ def generate(rng, tier):
                 ln = s.add("trace U F %s %s W%d %d" % (hx(pc), regs, mi, 4 * nw + 16), tag="%s:adv" % arch)
                 s.meta[ln] = {"budget": 4 * nw + 12, "arch": arch}
         out.append(("adversarial-%s-%d" % (arch, rep), s))
+    # adversarial PE programs: frame-register restores, machine frames, zero-size frames
+    from props import C14
+    import petruth
+    for rep in range(6 if tier == "quick" else 120):
+        s = Script("x86", "may" if rep % 2 == 0 else "must")
+        funcs, uinfos, text_lo, text, text_hi, probes = C14.hostile_pe(rng, "plain")
+        pbase = 0x7ff600000000
+        module_pe(s, "M", pbase, pbase + 0x100000, pbase, 0x140000000, [tuple(f) for f in funcs], uinfos, text_lo, text)
+        s.add("new U"); s.add("add U M")
+        base, nw = 0x7000, 64
+        code = [pbase + b + rng.range(1, max(1, e - b - 1)) for (b, e, i) in funcs if e > b + 1] or [pbase + 0x1001]
+        for mi in range(4):
+            pairs = []
+            for i in range(nw):
+                a = base + 8 * i
+                c = rng.below(10)
+                v = rng.choice(code) if c < 4 else (base + 8 * rng.below(nw) if c < 8 else (a if c == 8 else 0))
+                pairs.append((a, v))
+            s.mem("W%d" % mi, pairs)
+            for st in range(8):
+                pc = rng.choice(code)
+                regs = [rng.choice([base + 8 * rng.below(nw), base + 8 * rng.below(nw), 0, rng.u64()]) for _ in range(16)]
+                regs[4] = base + 8 * rng.below(nw)
+                s.add("newcache F")
+                ln = s.add("trace U F %s %s W%d %d" % (hx(pc), petruth.script_regs(pc, regs), mi, 4 * nw + 16), tag="x86:pe-adv")
+                s.meta[ln] = {"budget": 4 * nw + 12, "arch": "x86"}
+        out.append(("pe-adversarial-%d" % rep, s))
+    # PE frame-register restore / machine frame on self-referential and backward-pointing records
+    for rep in range(4 if tier == "quick" else 60):
+        s = Script("x86", "may" if rep % 2 == 0 else "must")
+        pbase = 0x7ff600000000
+        fp = rng.choice([5, 3, 13])
+        uinfos = {0: dict(fpreg=fp, fpoff=16 * rng.below(3), ops=[(6, ("setfp",)), (2, ("pop", fp))], chain=None, prolog=6),
+                  1: dict(fpreg=None, fpoff=0, ops=[(1, ("mach", False))], chain=None, prolog=1),
+                  2: dict(fpreg=None, fpoff=0, ops=[(1, ("mach", True))], chain=None, prolog=1),
+                  3: dict(fpreg=fp, fpoff=0, ops=[(8, ("alloc", 16)), (4, ("setfp",))], chain=None, prolog=8)}
+        funcs = [(0x1000, 0x1100, 0), (0x1100, 0x1200, 1), (0x1200, 0x1300, 2), (0x1300, 0x1400, 3)]
+        text = bytes([0x90]) * 0x400
+        module_pe(s, "M", pbase, pbase + 0x100000, pbase, 0x140000000, funcs, uinfos, 0x1000, text)
+        s.add("new U"); s.add("add U M")
+        base, nw = 0x7000, 64
+        code = [pbase + 0x1000 + 0x100 * k + rng.range(0x10, 0xf0) for k in range(4)]
+        for mi in range(3):
+            d = {}
+            for i in range(nw):
+                a = base + 8 * i
+                c = rng.below(10)
+                d[a] = rng.choice(code) if c < 4 else (base + 8 * rng.below(nw) if c < 7 else (a if c < 9 else 0))
+            # a frame record that points at itself, one that points backwards, with code addresses above them
+            r1, r2 = base + 8 * 20, base + 8 * 40
+            foff = uinfos[0]["fpoff"]
+            d[r1 - foff] = r1; d[r1 - foff + 8] = code[0]
+            d[r2] = r1; d[r2 + 8] = code[3]
+            # machine frames whose saved rsp is the frame itself / lies below
+            m1 = base + 8 * 50
+            d[m1] = code[1]; d[m1 + 24] = m1
+            d[m1 + 8] = code[2]; d[m1 + 32] = m1 - 8
+            s.mem("W%d" % mi, sorted(d.items()))
+            for pc, spv, fpv in [(code[0], r1 + 64, r1), (code[0], base, r1), (code[3], base + 8, r2), (code[1], m1, 0),
+                                 (code[2], m1 - 8, 0), (rng.choice(code), base + 8 * rng.below(nw), base + 8 * rng.below(nw))]:
+                regs = [rng.choice([0, base + 8 * rng.below(nw)]) for _ in range(16)]
+                regs[4] = spv; regs[fp] = fpv
+                s.add("newcache F")
+                ln = s.add("trace U F %s %s W%d %d" % (hx(pc), petruth.script_regs(pc, regs), mi, 40), tag="x86:pe-selfref")
+                s.meta[ln] = {"budget": 36, "arch": "x86"}
+        out.append(("pe-selfref-%d" % rep, s))
     # random worlds
     for rep in range(6 if tier == "quick" else 100):
         arch = "x86" if rep % 2 == 0 else "a64"
